@@ -30,6 +30,21 @@ RULE += ("  Reuse: ONE MerkleBlock / Block / HeadersMessage object queried repea
          "field in between (hashes, flags, total, root; the six header fields; the header list), two MerkleTree / "
          "MerkleBlock objects filled alternately, merkle_root on one list object edited between calls, compact-bits and "
          "tree-size functions called in sequences; each answer compared with a fresh object and the references.")
+RULE += ("  Entry-point audit: header chains whose headers DIFFER in bits (a header passing tight bits followed by headers "
+         "that pass only their own looser bits and the reverse; a first / middle / last header that fails its own bits but "
+         "would pass a neighbour's), links to the wrong element (grandparent, the same header twice, reversed order, "
+         "prev_block all-zero / all-ff in the middle, other byte order, predecessor's prev_block / merkle_root), a "
+         "non-zero transaction count after every header position, 253 / 300 (thorough: 2000) headers (0xfd count form), "
+         "headers of one byte class (all-zero, all-ff); leaves all equal (exhaustively all match subsets up to 5 leaves), "
+         "all-zero, all-ff, equal pairs / quads at the end, first = last, with tampering; header roots all-zero / all-ff / "
+         "a leaf / an interior node; all-zero / all-ff flag bytes; MerkleBlock.hash()/id(); Block(...) called positionally "
+         "and with txs / tx_hashes left out (two such objects share nothing); parse_header with both stream and hex; a block "
+         "with a transaction count of zero; an earlier proved_txs() list after the same object validated another proof; a "
+         "failed validation followed by a retry; a second proof put into one complete MerkleTree; HeadersMessage.is_valid "
+         "leaves the caller's list and headers alone; flagged compact bits repeated between ordinary ones; "
+         "SimpleNode.get_filtered_txs over a recorded conversation (honest answers of several blocks; answers in the other "
+         "order, a proof that does not hash to the header root, an altered proof hash, a foreign transaction, swapped "
+         "transactions must raise).")
 TRUSTED = ["hashlib (sha256) — hash256 is a universally quantified function in the theorems",
            "modelled, not verified: object plumbing of MerkleBlock/Block/HeadersMessage; CPython's int / int true "
            "division is taken to be the correctly rounded (nearest, ties to even) double of the exact quotient, which "
@@ -809,6 +824,15 @@ def p_chain(fields):
     want = _ref_chain_valid(fields)
     if got != want:
         return f"HeadersMessage.is_valid = {got}, reference (every header passes PoW and links to its predecessor) = {want}"
+    # the caller's list of header objects: is_valid() leaves it and the headers alone, and answers the same again
+    lst = [_blk(*f) for f in fields]
+    keep = list(lst)
+    msg = network.HeadersMessage(lst)
+    for k in range(2):
+        if msg.is_valid() != want:
+            return f"call {k}: HeadersMessage.is_valid on the caller's list = {not want}, reference = {want}"
+        if len(lst) != len(keep) or any(a is not b for a, b in zip(lst, keep)) or [_hdr(h) for h in lst] != [list(f) for f in fields]:
+            return "HeadersMessage.is_valid changed the caller's header list / the fields of the headers"
     return None
 
 
@@ -1067,7 +1091,10 @@ def p_reuse_headers(chain, seed, nops):
         k = r.random()
         if k < 0.45 or not msg.headers:
             cur = fields()
+            objs = list(msg.headers)
             got, want = msg.is_valid(), _ref_chain_valid(cur)
+            if len(msg.headers) != len(objs) or any(a is not b for a, b in zip(msg.headers, objs)) or fields() != cur:
+                return f"step {step}: is_valid() changed the HeadersMessage's header list / the fields of its headers"
             if got != want:
                 return (f"step {step}: is_valid() of the reused HeadersMessage = {got}; its current headers: every header "
                         f"passes PoW and links to its predecessor = {want}")
@@ -1399,7 +1426,284 @@ def p_block_stream(blocks, rest, seed):
     return None
 
 
-PROPS = {"block_parse": p_block_parse, "block_parse_reser": p_block_parse, "block_stream": p_block_stream,
+# ------------------------------------------------------------------ entry-point audit (defaults, minor entry points, shared state)
+
+def p_entry_misc(fields, leaves, matches, rest):
+    """the entry points around the core that the other predicates do not name: MerkleBlock.hash()/id() (what
+    SimpleNode.get_filtered_txs compares with the block hash it asked for), the Block constructor called positionally and
+    with its optional arguments left out (two such objects share nothing), parse_header with both stream and hex, a
+    block with a transaction count of zero, an earlier proved_txs() result after the object validated another proof,
+    a failing validation followed by a retry on the same MerkleBlock"""
+    n = len(leaves)
+    root = ref_root(leaves)[::-1]
+    ids = [x[::-1] for x in leaves]
+    v, pv, _m, t, b, nn = fields
+    hb = header_bytes(fields, root)
+    bh = h256(hb)[::-1]
+    total, _bits, hashes, flags = ref_build(leaves, matches)
+    want = [x for x, m in zip(ids, matches) if m]
+    # ---- MerkleBlock.hash / id: parsed and constructed
+    mb = MerkleBlock.parse(BytesIO(wire_merkleblock(hb, total, hashes, flags) + rest))
+    mb2 = MerkleBlock(Block(v, pv, root, t, b, nn), total, [h[::-1] for h in hashes], flags)
+    for how, x in (("parsed", mb), ("constructed", mb2)):
+        if x.hash() != bh or x.id() != bh.hex():
+            return f"hash()/id() of a {how} MerkleBlock is not the double-SHA256 of its 80-byte header (reversed)"
+        if x.proved_txs() != []:
+            return "proved_txs() before is_valid() is not empty"
+    if mb.is_valid() is not True or mb.proved_txs() != want:
+        return "honest merkleblock does not validate / prove the matched ids"
+    if mb.hash() != bh or mb.header.hash() != bh:
+        return "hash() of the MerkleBlock changed with is_valid()"
+    # ---- an earlier result after the same object validated another proof of the block
+    old = mb.proved_txs()
+    snap = list(old)
+    m2 = [not x for x in matches]
+    _t2, _b2, hashes2, flags2 = ref_build(leaves, m2)
+    mb.hashes, mb.flags = [h[::-1] for h in hashes2], flags2
+    if mb.is_valid() is not True or mb.proved_txs() != [x for x, m in zip(ids, m2) if m]:
+        return "a MerkleBlock given a second honest proof of the same block does not validate / prove the newly matched ids"
+    if old != snap:
+        return "validating a second proof rewrote the proved_txs() list returned for the first one"
+    # ---- failure, then retry on the same object
+    mb.hashes, mb.flags = [h[::-1] for h in hashes], flags
+    last = mb.hashes.pop()
+    try:
+        bad = mb.is_valid()
+    except Exception:
+        bad = "raise"
+    if bad is True:
+        return "a proof with its last hash removed validates"
+    mb.hashes.append(last)
+    try:
+        ok = mb.is_valid()
+    except Exception as e:
+        return "is_valid raised on the honest proof after a failed validation of the same object: " + repr(e)
+    if ok is not True or mb.proved_txs() != want:
+        return "after a failed validation the same MerkleBlock, made honest again, does not validate / prove the matched ids"
+    # ---- Block(...) positionally, and with the optional arguments left out
+    TXS = ["tx%d" % i for i in range(n)]
+    idl = list(ids)
+    bp = Block(v, pv, root, t, b, nn, TXS, idl)
+    if bp.txs is not TXS or bp.tx_hashes is not idl:
+        return "Block(version, prev_block, merkle_root, timestamp, bits, nonce, txs, tx_hashes) called positionally does not store txs / tx_hashes"
+    if bp.validate_merkle_root() is not True or idl != ids:
+        return "validate_merkle_root() of a positionally constructed Block is not True for the consensus root / changed the caller's list"
+    d1, d2 = Block(v, pv, root, t, b, nn), Block(v, pv, root, t, b, nn)
+    for x in (d1, d2):
+        if x.txs is not None or x.tx_hashes is not None:
+            return "Block(...) without txs / tx_hashes does not leave them None"
+    k1 = Block(v, pv, root, t, b, nn, tx_hashes=list(ids))
+    k2 = Block(v, pv, root, t, b, nn, txs=TXS)
+    if k1.txs is not None or k2.tx_hashes is not None or k2.txs is not TXS:
+        return "Block(...) with one of txs / tx_hashes given fills in the other one"
+    d1.tx_hashes = list(ids)
+    d1.txs = list(TXS)
+    if d2.tx_hashes is not None or d2.txs is not None or k1.txs is not None:
+        return "assigning tx_hashes / txs of one default-constructed Block changed another Block"
+    if d1.validate_merkle_root() is not True:
+        return "validate_merkle_root() with tx_hashes assigned to a default-constructed Block is not True"
+    try:
+        r0 = d2.validate_merkle_root()
+    except Exception:
+        r0 = "raise"
+    if r0 is True:
+        return "validate_merkle_root() of a Block that has no tx_hashes is True"
+    # ---- parse_header with both a stream and hex
+    st = BytesIO(hb + rest)
+    other = header_bytes([v ^ 1, pv, _m, t, b, nn], root[::-1])
+    try:
+        h2 = Block.parse_header(st, hex=other.hex())
+    except RuntimeError:
+        h2 = None
+    except Exception as e:
+        return "parse_header(stream, hex=...) raised " + type(e).__name__
+    if h2 is not None:
+        return "parse_header given both a stream and hex returns a header instead of raising RuntimeError"
+    h3 = Block.parse_header(hex=hb.hex())
+    h4 = Block.parse_header(stream=BytesIO(hb))
+    if _hdr(h3) != [v, pv, root, t, b, nn] or _hdr(h4) != _hdr(h3) or h3.hash() != bh:
+        return "parse_header(hex=...) / parse_header(stream=...) differ from the header bytes"
+    # ---- a block with a transaction count of zero
+    got = []
+    for _k in range(2):
+        st = BytesIO(hb + b"\x00" + rest)
+        try:
+            z = Block.parse(st)
+        except Exception as e:
+            return "Block.parse raised on a block with a transaction count of 0: " + repr(e)
+        if z.txs != [] or z.tx_hashes != [] or st.read() != rest or _hdr(z) != [v, pv, root, t, b, nn]:
+            return "Block.parse of a block with a transaction count of 0: txs / tx_hashes not empty, or bytes after it consumed"
+        try:
+            zr = z.validate_merkle_root()
+        except Exception:
+            zr = "raise"
+        if zr is True:
+            return "validate_merkle_root() of a block without transactions is True"
+        got.append(z)
+    if got[0].tx_hashes is got[1].tx_hashes or got[0].txs is got[1].txs:
+        return "two parsed empty blocks share one tx_hashes / txs list object"
+    got[0].tx_hashes.extend(ids)
+    if got[1].tx_hashes != [] or got[0].validate_merkle_root() is not True:
+        return "tx_hashes appended to one parsed empty block show in another one / do not validate"
+    return None
+
+
+def p_tree_second(la, ma, lb, mb_):
+    """ONE MerkleTree given a second proof after a complete first one.  Either the second call raises and the tree still
+    answers for the first proof, or it returns and the tree answers exactly for the second: never a mixture (root of one
+    with ids of the other, ids of both)"""
+    pa, pb = ref_build(la, ma), ref_build(lb, mb_)
+    wa = [x[::-1] for x, m in zip(la, ma) if m]
+    wb = [x[::-1] for x, m in zip(lb, mb_) if m]
+    t = MerkleTree(pa[0])
+    fa, ha = helper.bytes_to_bit_field(pa[3]), list(pa[2])
+    t.populate_tree(fa, ha)
+    if t.root() != ref_root(la) or t.proved_txs != wa:
+        return "first proof: wrong root / proved_txs"
+    fb, hb_ = helper.bytes_to_bit_field(pb[3]), list(pb[2])
+    try:
+        t.populate_tree(fb, hb_)
+        raised = False
+    except Exception:
+        raised = True
+    first = t.root() == ref_root(la) and t.proved_txs == wa
+    second = t.root() == ref_root(lb) and t.proved_txs == wb
+    if raised and not first:
+        return "a second populate_tree on a complete MerkleTree raised but changed the tree's root / proved_txs"
+    if not raised and not (second or (first and hb_ == [] and not any(fb))):
+        return ("a second populate_tree on a complete MerkleTree returned normally and the tree answers neither for the "
+                "first nor for the second proof (root / proved_txs mixed)")
+    # a tree of the same size built afterwards starts empty
+    t3 = MerkleTree(pa[0])
+    if t3.root() is not None or t3.proved_txs != [] or t3.current_depth != 0 or t3.current_index != 0:
+        return "a new MerkleTree is not empty / not at the root"
+    return None
+
+
+def p_headers_txcount(fields, k, cnt):
+    """a headers message in which header k (any position, not only the first) is followed by a non-zero transaction
+    count is refused by HeadersMessage.parse with RuntimeError; with every count zero it parses to the headers sent"""
+    out = _cs(len(fields))
+    for i, (v, p, m, t, b, n) in enumerate(fields):
+        out += struct.pack("<I", v) + p[::-1] + m[::-1] + struct.pack("<I", t) + b + n + (_cs(cnt) if i == k else b"\x00")
+    try:
+        msg = network.HeadersMessage.parse(BytesIO(out))
+    except RuntimeError:
+        return None if cnt else "HeadersMessage.parse raised RuntimeError on a well-formed headers message"
+    except Exception as e:
+        return "HeadersMessage.parse raised " + type(e).__name__
+    if cnt:
+        return f"HeadersMessage.parse accepts a headers message whose header {k} of {len(fields)} is followed by the transaction count {cnt}"
+    if [_hdr(h) for h in msg.headers] != [list(f) for f in fields]:
+        return "HeadersMessage.parse returns different headers"
+    return None
+
+
+_MAGIC_MAIN = b"\xf9\xbe\xb4\xd9"
+
+
+def _envelope(cmd, payload):
+    return _MAGIC_MAIN + cmd + b"\x00" * (12 - len(cmd)) + struct.pack("<I", len(payload)) + h256(payload)[:4] + payload
+
+
+class _FakeSocket:
+    def __init__(self):
+        self.sent = []
+
+    def sendall(self, b):
+        self.sent.append(bytes(b))
+
+
+def p_filtered_txs(blocks, scenario, k):
+    """SimpleNode.get_filtered_txs over a recorded peer conversation (no network: the socket is a recorder and the stream a
+    BytesIO of hand-framed messages).  blocks = [[header fields, transactions, match vector] ...].  scenario 0: the honest
+    answers (with a ping and an unrelated message in between) -> exactly the matched transactions of every block, in
+    order, and the getdata request names every block hash; 1: the answers for two blocks arrive in the other order;
+    2: block k's header carries an altered Merkle root (and that header's hash is what was asked for); 3: one proof hash
+    of block k altered; 4: a matched transaction of block k replaced by an unmatched / foreign one; 5: two matched
+    transactions of block k swapped.  1..5 must raise"""
+    from buidl.tx import Tx
+    info = []
+    for bi, (fields, txs, matches) in enumerate(blocks):
+        sers = [ser_tx(t) for t in txs]
+        txids = [h256(s) for _w, s in sers]
+        root = ref_root(txids)[::-1]
+        total, _bits, hashes, flags = ref_build(txids, matches)
+        hashes = list(hashes)
+        if scenario == 2 and bi == k:
+            rb = bytearray(root)
+            rb[5] ^= 0x10
+            root = bytes(rb)
+        if scenario == 3 and bi == k:
+            # prefer a hash that is not a matched leaf: the transactions that follow still fit the proved ids
+            cand = [i for i, h in enumerate(hashes) if h not in [x for x, m in zip(txids, matches) if m]]
+            i = cand[0] if cand else 0
+            hb_ = bytearray(hashes[i])
+            hb_[7] ^= 0x02
+            hashes[i] = bytes(hb_)
+        hb = header_bytes(fields, root)
+        sent_txs = [(w, x[::-1]) for (w, _s), x, m in zip(sers, txids, matches) if m]
+        if scenario == 4 and bi == k:
+            if not sent_txs:
+                return None
+            spare = [(w, x[::-1]) for (w, _s), x, m in zip(sers, txids, matches) if not m]
+            if not spare:
+                ob = blocks[(k + 1) % len(blocks)]
+                w0, s0 = ser_tx(ob[1][0])
+                spare = [(w0, h256(s0)[::-1])]
+            if spare[0][1] == sent_txs[0][1]:
+                return None
+            sent_txs[0] = spare[0]
+        if scenario == 5 and bi == k:
+            if len(sent_txs) < 2 or sent_txs[0][1] == sent_txs[1][1]:
+                return None
+            sent_txs[0], sent_txs[1] = sent_txs[1], sent_txs[0]
+        info.append({"bh": h256(hb)[::-1], "mb": wire_merkleblock(hb, total, hashes, flags), "txs": sent_txs})
+    order = list(range(len(info)))
+    if scenario == 1:
+        if len(info) < 2 or info[0]["bh"] == info[1]["bh"]:
+            return None
+        order[0], order[1] = order[1], order[0]
+    conv = b""
+    for j, bi in enumerate(order):
+        if j == 0:
+            conv += _envelope(b"ping", b"\x01\x02\x03\x04\x05\x06\x07\x08")
+        conv += _envelope(b"merkleblock", info[bi]["mb"])
+        for q, (w, _id) in enumerate(info[bi]["txs"]):
+            if q == 1:
+                conv += _envelope(b"inv", b"\x00")
+            conv += _envelope(b"tx", w)
+    node = network.SimpleNode.__new__(network.SimpleNode)
+    node.network, node.logging = "mainnet", False
+    node.socket = _FakeSocket()
+    node.stream = BytesIO(conv)
+    asked = [x["bh"] for x in info]
+    try:
+        res = node.get_filtered_txs(list(asked))
+    except Exception as e:
+        if scenario == 0:
+            return "get_filtered_txs raised on the honest answers of a peer: " + repr(e)
+        return None
+    if scenario != 0:
+        what = {1: "the merkleblocks of two blocks arrive in the other order than asked for",
+                2: "a merkleblock whose proof does not hash to its header's Merkle root",
+                3: "a merkleblock with an altered proof hash",
+                4: "a transaction that is not the one the proof yields",
+                5: "two proved transactions in the other order"}[scenario]
+        return f"get_filtered_txs returns normally ({len(res)} transactions) for {what}"
+    want = [i for x in info for (_w, i) in x["txs"]]
+    if [type(x) for x in res] != [Tx] * len(want) or [x.hash() for x in res] != want:
+        return "get_filtered_txs does not return exactly the matched transactions of every block, in order"
+    req = _cs(len(asked)) + b"".join(struct.pack("<I", 3) + x[::-1] for x in asked)
+    if not node.socket.sent or node.socket.sent[0] != _envelope(b"getdata", req):
+        return "get_filtered_txs did not send getdata(MSG_FILTERED_BLOCK, hash) for every block hash asked for, in order"
+    if node.stream.read() != b"":
+        return "get_filtered_txs left messages of the conversation unread"
+    return None
+
+
+PROPS = {"headers_txcount": p_headers_txcount, "entry_misc": p_entry_misc, "tree_second": p_tree_second, "filtered_txs": p_filtered_txs,
+         "block_parse": p_block_parse, "block_parse_reser": p_block_parse, "block_stream": p_block_stream,
          "root_ref": p_root_ref, "proof_complete": p_proof_complete, "proof_complete_spec": p_proof_complete_spec,
          "tamper": p_tamper, "total_forgery": p_total_forgery, "hashlen_split": p_hashlen_split,
          "bitfield_rt": p_bitfield_rt,
@@ -1819,6 +2123,240 @@ def generate(ctx):
         yield ("prop", "compact_order", [seq])
     # ---------------- whole blocks through Block.parse and every other entry point that feeds the Merkle code
     yield from block_cases(ctx)
+    # ---------------- entry-point audit: defaults, per-element attributes, coincidences, byte classes, shared state, retry
+    yield from audit_cases(ctx)
+
+
+def ref_mine(fields, above=None, upto=None, start=0):
+    """grind the nonce (a counter; reference arithmetic only) until the header hash H, as a number, satisfies
+    target(above) < H <= target(upto), where above / upto are compact bits (None: no bound)"""
+    v, p, m, t, b, _n = fields
+    lo = core_set_compact(int.from_bytes(above, "little"))[0] if above is not None else -1
+    hi = core_set_compact(int.from_bytes(upto, "little"))[0] if upto is not None else 2 ** 256
+    pre = struct.pack("<I", v) + p[::-1] + m[::-1] + struct.pack("<I", t) + b
+    for c in range(start, start + 400000):
+        n = struct.pack("<I", c)
+        if lo < int.from_bytes(h256(pre + n), "little") <= hi:
+            return [v, p, m, t, b, n]
+    raise RuntimeError("ref_mine: no nonce found")
+
+
+def ref_hash(fields):
+    v, p, m, t, b, n = fields
+    return h256(struct.pack("<I", v) + p[::-1] + m[::-1] + struct.pack("<I", t) + b + n)[::-1]
+
+
+def special_leaves(ctx, n, cls):
+    x = ctx.rbytes(32)
+    if cls == "zero":
+        return [Z32] * n
+    if cls == "ff":
+        return [b"\xff" * 32] * n
+    if cls == "equal":
+        return [x] * n
+    l = [ctx.rbytes(32) for _ in range(n)]
+    if cls == "pair" and n >= 4:          # the last two PAIRS are equal: two equal nodes one level up
+        l[-2:] = l[-4:-2]
+    elif cls == "quad" and n >= 8:
+        l[-4:] = l[-8:-4]
+    elif cls == "zero-first":
+        l[0] = Z32
+    elif cls == "zero-ff-mixed":
+        l = [Z32 if i & 1 else b"\xff" * 32 for i in range(n)]
+    elif cls == "first-last":
+        l[-1] = l[0]
+    return l
+
+
+def audit_cases(ctx):
+    r = ctx.rng
+    easy, tight = bytes.fromhex("ffff7f20"), bytes.fromhex("ffff7f1f")
+    loose2 = bytes.fromhex("ffff3f20")
+    FF32 = b"\xff" * 32
+
+    def hdr(prev, bits, above=None, upto="own"):
+        """a header with these bits whose hash is above target(above) and at most target(upto) (default: its own bits)"""
+        return ref_mine([r.getrandbits(32), prev, ctx.rbytes(32), r.getrandbits(32), bits, b"\x00" * 4], above,
+                        bits if upto == "own" else upto)
+
+    def chain_cases(chain, label, reuse=False):
+        ctx.label("audit/chain/" + label)
+        yield ("corr", "headers_is_valid", [chain])
+        yield ("prop", "chain", [chain])
+        yield ("prop", "headers_wire", [chain, ctx.rbytes(r.choice([0, 2]))])
+        yield ("corr", "headers_parse_is_valid", [wire_headers(chain)])
+        if reuse:
+            yield ("prop", "reuse_headers", [chain, r.getrandbits(30), 30])
+
+    # ---- (f) headers of ONE message that differ in bits: every header is judged by its own bits
+    for rep in range(ctx.n(2, 10)):
+        a = hdr(ctx.rbytes(32), tight)                                   # passes the tight target
+        b = hdr(ref_hash(a), easy, above=tight)                          # passes its own, above the first one's target
+        c = hdr(ref_hash(b), loose2, above=tight)
+        yield from chain_cases([a, b], "mixed-bits/tight-loose-valid", reuse=True)
+        yield from chain_cases([a, b, c], "mixed-bits/three-valid")
+        a2 = hdr(ctx.rbytes(32), easy, above=tight)
+        b2 = hdr(ref_hash(a2), tight)
+        yield from chain_cases([a2, b2], "mixed-bits/loose-tight-valid", reuse=True)
+        b3 = hdr(ref_hash(a2), tight, above=tight, upto=easy)            # fails its own bits, would pass the first one's
+        yield from chain_cases([a2, b3], "mixed-bits/second-fails-own-bits")
+        a4 = hdr(ctx.rbytes(32), tight, above=tight, upto=easy)          # fails its own bits, would pass the second one's
+        b4 = hdr(ref_hash(a4), easy)
+        yield from chain_cases([a4, b4], "mixed-bits/first-fails-own-bits")
+        b5 = hdr(ref_hash(a), tight, above=tight, upto=easy)
+        c5 = hdr(ref_hash(b5), easy)
+        yield from chain_cases([a, b5, c5], "mixed-bits/middle-fails-own-bits")
+    # ---- (c) links to the wrong element / coincidences of prev_block
+    for rep in range(ctx.n(2, 10)):
+        h0 = hdr(r.choice([Z32, ctx.rbytes(32), FF32]), easy)
+        h1 = hdr(ref_hash(h0), easy)
+        h2 = hdr(ref_hash(h1), easy)
+        yield from chain_cases([h0, h1, h2], "link/honest-first-prev-%s" % ("zero" if h0[1] == Z32 else "other"), reuse=True)
+        yield from chain_cases([h0, h1, hdr(ref_hash(h0), easy)], "link/grandparent")
+        yield from chain_cases([h0, h0], "link/same-header-twice")
+        yield from chain_cases([h0, h1, h1], "link/same-header-twice")
+        yield from chain_cases([h1, h0], "link/reversed-order")
+        yield from chain_cases([h0, hdr(Z32, easy)], "link/prev-zero-in-the-middle")
+        yield from chain_cases([h0, hdr(FF32, easy), h2], "link/prev-ff-in-the-middle")
+        yield from chain_cases([h0, hdr(ref_hash(h0)[::-1], easy)], "link/prev-other-byte-order")
+        yield from chain_cases([h0, hdr(h0[1], easy)], "link/prev-equals-predecessors-prev")
+        yield from chain_cases([h0, hdr(h0[2], easy)], "link/prev-equals-predecessors-merkle-root")
+        yield from chain_cases([h0, hdr(h256(ref_hash(h0)), easy)], "link/prev-hash-of-hash")
+        s = ref_mine([h0[0], h0[1], h0[1], h0[3], easy, b"\x00" * 4], None, easy)     # merkle_root == prev_block
+        yield from chain_cases([s, hdr(ref_hash(s), easy)], "link/root-equals-prev")
+    # ---- (f) the transaction count after EVERY header; (d) a header count in the 0xfd CompactSize form (peers send 2000)
+    h0 = hdr(Z32, easy)
+    h1 = hdr(ref_hash(h0), easy)
+    h2 = hdr(ref_hash(h1), easy)
+    for k in range(3):
+        for cnt in (0, 1, 2, 0xFC, 0xFD, 0x10000):
+            ctx.label("audit/headers/tx-count-after-header-%d" % k)
+            yield ("prop", "headers_txcount", [[h0, h1, h2], k, cnt])
+        one = wire_headers([h0, h1, h2])
+        pos = 1 + 81 * k + 80
+        yield ("corr", "headers_parse_is_valid", [one[:pos] + b"\x01" + one[pos + 1:]])
+    for nh in ((253, 300) if ctx.tier == "quick" else (253, 256, 2000)):
+        long_chain, prev = [], ctx.rbytes(32)
+        for _ in range(nh):
+            long_chain.append(hdr(prev, easy))
+            prev = ref_hash(long_chain[-1])
+        yield from chain_cases(long_chain, "count-0xfd-form/honest")
+        bad = [list(f) for f in long_chain]
+        bad[-1][1] = long_chain[-3][1]
+        yield from chain_cases(bad, "count-0xfd-form/last-link-broken")
+        bad = [list(f) for f in long_chain]
+        bad[252] = bad[252][:4] + [tight] + bad[252][5:]
+        bad[252] = ref_mine(bad[252], above=tight, upto=easy)
+        yield from chain_cases(bad[:253], "count-0xfd-form/last-fails-pow")
+    # ---- (d) headers of one byte class
+    for f in ([0, Z32, Z32, 0, b"\x00" * 4, b"\x00" * 4], [0xFFFFFFFF, FF32, FF32, 0xFFFFFFFF, b"\xff" * 4, b"\xff" * 4],
+              [0, Z32, Z32, 0, easy, b"\x00" * 4], [0xFFFFFFFF, FF32, FF32, 0xFFFFFFFF, easy, b"\xff" * 4],
+              [0, Z32, Z32, 0, b"\xff\xff\xff\x20", b"\x00" * 4], [1, Z32, FF32, 1, b"\x00\x00\x00\x21", b"\x00" * 4],
+              [0x80000000, FF32, Z32, 0x80000000, b"\x01\x00\x00\x22", b"\x00\x00\x00\x80"],
+              [1, Z32, Z32, 0, b"\x00\x00\x80\x20", b"\x00" * 4], [1, Z32, Z32, 0, b"\x00\x00\x00\xff", b"\x00" * 4]):
+        ctx.label("audit/header/byte-class")
+        yield ("corr", "check_pow", f)
+        yield ("corr", "block_hash", f)
+        yield ("corr", "difficulty", [f[4]])
+        yield ("prop", "pow_ref", f)
+        yield ("prop", "pow_eq_stub", f)
+        yield ("prop", "compact_ref", [f[4]])
+        yield ("corr", "headers_is_valid", [[f]])
+        yield ("prop", "chain", [[f, f]])
+        yield ("prop", "headers_wire", [[f], b""])
+    # ---- (c)/(d) leaves: all equal, all zero, all ff, equal pairs / quads at the end, first == last
+    for cls in ("equal", "zero", "ff", "pair", "quad", "zero-first", "zero-ff-mixed", "first-last"):
+        for n in (1, 2, 3, 4, 5, 6, 7, 8, 9, 12, 15, 16, 17):
+            if (cls == "pair" and n < 4) or (cls == "quad" and n < 8):
+                continue
+            leaves = special_leaves(ctx, n, cls)
+            ctx.label("audit/leaves/" + cls)
+            yield ("corr", "merkle_root", [leaves])
+            yield ("corr", "consensus_root", [leaves])
+            yield ("prop", "root_ref", [leaves])
+            yield ("corr", "merkle_parent_level", [leaves])
+            ids = [x[::-1] for x in leaves]
+            yield ("corr", "validate_merkle_root", [ref_root(leaves)[::-1], ids])
+            yield ("corr", "validate_merkle_root", [Z32 if cls != "zero" else FF32, ids])
+            if n >= 2:
+                yield ("prop", "total_forgery", [leaves])
+            if cls == "equal" and n <= 5:
+                msets = [list(m) for m in itertools.product([False, True], repeat=n)]
+            else:
+                msets = [[True] * n, [False] * n, [i == n - 1 for i in range(n)], [r.random() < 0.5 for _ in range(n)]]
+            for m in msets:
+                yield from proof_cases(ctx, leaves, m, full=(n <= 9))
+            if (cls, n) in (("equal", 3), ("equal", 4), ("zero", 2), ("ff", 3), ("pair", 6), ("quad", 8), ("first-last", 5)):
+                for m in ([True] * n, [i in (0, n - 1) for i in range(n)]):
+                    yield from tamper_cases(ctx, leaves, m, every_bit=False)
+            if n in (3, 4, 6):
+                m = [r.random() < 0.5 for _ in range(n)]
+                ctx.label("audit/two-proofs-same-leaves")
+                yield ("prop", "two_proofs", [leaves, m, leaves, [not x for x in m]])
+                yield ("prop", "two_proofs", [leaves, m, leaves, m])
+                yield ("prop", "reuse_mb", [leaves, m if any(m) else [True] * n, r.getrandbits(30), 30])
+    # a proof whose header root is all zero / all ff / a leaf / an interior node never validates (model decides)
+    for n in (1, 2, 3, 5, 8):
+        leaves = rleaves(ctx, n)
+        total, _bits, hashes, flags = ref_build(leaves, [True] * n)
+        for root in (Z32, FF32, leaves[0][::-1], leaves[0], ref_levels(leaves)[max(0, len(ref_levels(leaves)) - 2)][0][::-1],
+                     ref_root(leaves)):
+            ctx.label("audit/proof/root-class")
+            yield ("corr", "mb_is_valid", [root, total, [h[::-1] for h in hashes], flags])
+        for fl in (b"\x00" * len(flags), b"\xff" * len(flags), flags + b"\x00", flags + b"\xff", b""):
+            ctx.label("audit/proof/flag-class")
+            yield ("corr", "mb_is_valid", [ref_root(leaves)[::-1], total, [h[::-1] for h in hashes], fl])
+            yield ("corr", "mb_is_valid_rec", [ref_root(leaves)[::-1], total, [h[::-1] for h in hashes], fl])
+    # ---- (a)/(b)/(g) minor entry points, defaults, second proof on one tree
+    for n in (1, 2, 3, 4, 5, 7, 8, 13, 16, 17):
+        leaves = rleaves(ctx, n, dup=(n == 4))
+        m = [r.random() < 0.5 for _ in range(n)]
+        ctx.label("audit/entry-misc")
+        yield ("prop", "entry_misc", [rheader_fields(ctx, r.choice([easy, bytes.fromhex("ffff001d")])), leaves, m,
+                                      ctx.rbytes(r.choice([0, 3]))])
+        yield ("prop", "entry_misc", [rheader_fields(ctx, easy), leaves, [True] * n, b""])
+        yield ("prop", "entry_misc", [rheader_fields(ctx, easy), leaves, [False] * n, b"\x00"])
+        for lb in (rleaves(ctx, n), rleaves(ctx, r.choice([1, 2, 3, 6, 9])), leaves):
+            mb_ = [r.random() < 0.5 for _ in lb]
+            ctx.label("audit/tree-second-proof")
+            yield ("prop", "tree_second", [leaves, m, lb, mb_])
+            yield ("prop", "tree_second", [leaves, m, lb, [True] * len(lb)])
+            yield ("prop", "tree_second", [leaves, [False] * n, lb, [False] * len(lb)])
+    # ---- (g) failure, then retry, of the compact-bits functions: flagged / short bits between ordinary ones, each twice
+    flagged = [bytes.fromhex(x) for x in ("00008020", "ffffff20", "01008003", "ffff7f23", "010000ff", "00000000",
+                                          "000000ff", "ffffffff", "ffff7f02", "ffff7f00")]
+    for _ in range(ctx.n(4, 30)):
+        seq = []
+        for _j in range(12):
+            fb = r.choice(flagged)
+            gb = r.choice(_guard_bits_pool())
+            seq += r.choice([[[0, fb], [0, fb], [0, gb]], [[2, fb, TIMESPAN], [0, fb], [2, gb, TIMESPAN], [2, fb, TIMESPAN * 4]],
+                             [[0, gb], [0, fb], [0, gb], [1, core_set_compact(int.from_bytes(gb, "little"))[0]]]])
+        ctx.label("audit/compact-failure-retry")
+        yield ("prop", "compact_order", [seq])
+    # ---- (a)/(f) SimpleNode.get_filtered_txs over a recorded conversation
+    def fields():
+        return rheader_fields(ctx, r.choice([easy, bytes.fromhex("ffff001d")]))
+
+    for rep in range(ctx.n(3, 20)):
+        nb = r.choice([2, 3])
+        blocks = []
+        for bi in range(nb):
+            txs = gen_block_txs(ctx, "".join(r.choice("LS") for _ in range(r.choice([3, 4, 5, 7, 8]))))
+            m = [r.random() < 0.5 for _ in txs]
+            if sum(m) < 2:                       # at least two matched, at least one unmatched transaction
+                m[1] = m[2] = True
+            if all(m):
+                m[r.choice([0, len(m) - 1])] = False
+            blocks.append([fields(), txs, m])
+        for sc in range(6):
+            ctx.label("audit/filtered-txs/scenario-%d" % sc)
+            yield ("prop", "filtered_txs", [blocks, sc, r.randrange(nb)])
+    one = [[fields(), gen_block_txs(ctx, "S"), [True]]]
+    yield ("prop", "filtered_txs", [one, 0, 0])
+    yield ("prop", "filtered_txs", [one, 2, 0])
+    yield ("prop", "filtered_txs", [[[fields(), gen_block_txs(ctx, "LSL"), [False] * 3]] * 1, 0, 0])
+    yield ("prop", "filtered_txs", [[], 0, 0])
 
 
 # ------------------------------------------------------------------ hand-written transactions and blocks
